@@ -7,6 +7,6 @@ Require Import Fsic.Base.PyBase Fsic.Parser.PyStr Fsic.Parser.Symbols Fsic.Parse
 Extraction Language OCaml.
 Extraction "Extract/Build/build_model.ml"
   parse_model_nocheck class_of c_names default_range default_opts
-  build_def conv_default conv_code conv_wrap conv_count conv_empty conv_broken
+  build_def conv_default conv_code conv_wrap conv_count conv_empty conv_broken conv_fields
   py_repr_str py_repr_names format_named indent default_converter
   type_name string_of_Z py_int exec_M.
